@@ -28,8 +28,10 @@ func main() {
 		}
 		obs := r.Do("p", append(c.Toks(), lib.Hex(frame), lib.Hex(spare))...)
 		cl := class
-		if i := strings.LastIndex(cl, "."); strings.HasPrefix(cl, "b.len.") && i > 0 {
+		if strings.HasPrefix(cl, "b.len.") {
 			cl = "b.len"
+		} else if i := strings.Index(cl, "et."); i >= 0 {
+			cl = cl[:i] + "et"
 		}
 		r.Stat("class."+cl, 1)
 		switch {
